@@ -6,10 +6,10 @@ import Strengths.Model.PyNumeric
 namespace Strengths.PyNumeric
 open Strengths.Gen.PyNumeric
 
-/-- the only limited-digit formats in `simulate.py` are the three spellings of the progress percentage printed on the
+/-- the only limited-digit formats in `simulate.py` are the three spellings of the progress percentage `v` printed on the
 terminal (`print_progress`); nothing that reaches a result is rounded, narrowed or compared with a tolerance -/
 theorem simulate_full_precision :
-    fullPrecision (inv_simulate.filter fun e => !(e.1 == "format" && ["f\"\\r00{v:.6f}%\"", "f\"\\r0{v:.6f}%\"", "f\"\\r{v:.6f}%\""].contains e.2)) = true ∧
+    fullPrecision (inv_simulate.filter fun e => !(e.1 == "format" && e.2 == "{v:.6f}")) = true ∧
     (inv_simulate.filter fun e => e.1 == "format").length = 3 := by
   decide +kernel
 
